@@ -17,6 +17,9 @@ import (
 	"github.com/MixinNetwork/mixin/crypto"
 	"github.com/MixinNetwork/mixin/verifmc"
 	"github.com/MixinNetwork/mixin/verifmc/fixc"
+	"github.com/MixinNetwork/mixin/verifmc/vsync"
+	"github.com/dgraph-io/badger/v4"
+	"github.com/dgraph-io/badger/v4/options"
 )
 
 // C27 (storage layer) — membership follows the pledge/accept/cancel/remove
@@ -54,10 +57,11 @@ type c27Alphabet struct {
 	Events  []c27Event
 	Labels  map[crypto.Key]string
 	Genesis []c27Rec // the records LoadGenesis must produce
+	Wallet  common.Address
 }
 
 func c27NewAlphabet() *c27Alphabet {
-	a := &c27Alphabet{Labels: map[crypto.Key]string{}}
+	a := &c27Alphabet{Labels: map[crypto.Key]string{}, Wallet: fixc.Addr("c27-wallet")}
 	for i := 0; i < 3; i++ {
 		a.Signers = append(a.Signers, fixc.NodeAddr(fmt.Sprintf("c27-signer-%d", i)))
 	}
@@ -170,6 +174,7 @@ type c27Counters struct {
 	mismatchReject  atomic.Int64 // rejected only because of the payee
 	naturalInput    atomic.Int64
 	fundedInput     atomic.Int64
+	deposits        atomic.Int64
 }
 
 // c27State = real ledger + driver wallet + reference history.
@@ -180,11 +185,43 @@ type c27State struct {
 	L    *mcLedger
 	Acct common.Address
 	Seq  int
-	Hist []c27Rec // reference history in order of acceptance (genesis first)
+	// Spare is the wallet output that events without an output of their own
+	// spend: it stays available (fork-locked again) while the transactions that
+	// named it were rejected, and is replaced once a finalized one consumed it.
+	Spare *common.Input
+	Hist  []c27Rec // reference history in order of acceptance (genesis first)
+}
+
+// c27NewLedger is newMCLedger("") (real BadgerStore over in-memory Badger +
+// real LoadGenesis of the generated 7-node genesis) with 1 MiB instead of
+// 8 MiB memtables: the BFS builds thousands of instances and zeroing the two
+// 10 MiB skiplist arenas of OpenForVerif was 70% of the CPU time. Every value
+// written here is far below the 64 KiB value threshold.
+func c27NewLedger(a *c27Alphabet) *mcLedger {
+	open := func() *badger.DB {
+		opts := badger.DefaultOptions("").WithInMemory(true)
+		opts = opts.WithCompression(options.None).WithBlockCacheSize(0).WithIndexCacheSize(0)
+		opts = opts.WithMetricsEnabled(false).WithLoggingLevel(badger.ERROR)
+		opts = opts.WithNumCompactors(2).WithMemTableSize(1 << 20).WithValueThreshold(64 << 10).WithNumMemtables(2)
+		db, err := badger.Open(opts)
+		if err != nil {
+			panic(err)
+		}
+		return db
+	}
+	store := &BadgerStore{snapshotsDB: open(), cacheDB: open(), mutex: new(vsync.RWMutex)}
+	rounds, snapshots, transactions, err := mcNet7.Genesis.BuildSnapshots()
+	if err != nil {
+		panic(err)
+	}
+	if err := store.LoadGenesis(rounds, snapshots, transactions); err != nil {
+		panic(err)
+	}
+	return &mcLedger{Net: mcNet7, Store: store}
 }
 
 func c27New(a *c27Alphabet, c *verifmc.Check, n *c27Counters) *c27State {
-	s := &c27State{A: a, C: c, N: n, L: newMCLedger(""), Acct: fixc.Addr("c27-wallet")}
+	s := &c27State{A: a, C: c, N: n, L: c27NewLedger(a), Acct: a.Wallet}
 	s.Hist = append(s.Hist, a.Genesis...)
 	return s
 }
@@ -271,10 +308,10 @@ func (s *c27State) spendableOutput(h crypto.Hash) *common.Input {
 }
 
 // build constructs the real node transaction of the event. Pledges spend a
-// fresh wallet output; accept/cancel spend the pledge output of the signer's
-// pending pledge and remove spends the signer's accept output when that
-// output exists and is unspent — otherwise (operation invalid in the current
-// state) any suitable output: a fresh 13439 XIN wallet output.
+// 13439 XIN wallet output; accept/cancel spend the pledge output of the
+// signer's pending pledge and remove spends the signer's accept output when
+// that output exists and is unspent — otherwise (operation invalid in the
+// current state) any suitable output: the 13439 XIN wallet output.
 func (s *c27State) build(op int, signerAddr common.Address, payee crypto.Key, ts uint64) *common.VersionedTransaction {
 	signer := signerAddr.PublicSpendKey
 	var in *common.Input
@@ -290,7 +327,11 @@ func (s *c27State) build(op int, signerAddr common.Address, payee crypto.Key, ts
 	if in != nil {
 		s.N.naturalInput.Add(1)
 	} else {
-		in = s.fund(ts)
+		if s.Spare == nil || s.spendableOutput(s.Spare.Hash) == nil {
+			s.Spare = s.fund(ts)
+			s.N.deposits.Add(1)
+		}
+		in = s.Spare
 		s.N.fundedInput.Add(1)
 	}
 	s.Seq++
@@ -699,7 +740,7 @@ func TestMC_C27(t *testing.T) {
 	defer c.Finish()
 	a := c27NewAlphabet()
 	n := &c27Counters{}
-	c.SetRule("BFS over all sequences of node operations {pledge, accept, cancel, remove}(signer, payee)@ts with signer in a pool of 3 new keys, payee in a pool of 2 (so accept/cancel/remove carry keys that match or do not match the record), plus remove (matching / mismatching payee) and re-pledge of one genesis node; ts in {t, t+1, t+12h, t+12h+1} not below the newest record (equal timestamps across signers are forced) and strictly above the signer's own newest record. Every event is a real node transaction (output type + Extra = signer||payee) finalized by LockInputs(fork) + WriteTransaction + WriteSnapshot without Validate, so valid and invalid operations reach writeNodePledge/Accept/Cancel/Remove through the real writeUTXO dispatch; it spends the output the operation names when that exists and is unspent (pledge output for accept/cancel, accept output for remove), otherwise a fresh 13439 XIN wallet output from a custodian-signed deposit. Canonical state = the durable history (ts, signer, payee, state); a rejected event leaves the state unchanged and is not expanded. Reference model = list of records + the statement's rules; oracle evaluated after every event")
+	c.SetRule("BFS over all sequences of node operations {pledge, accept, cancel, remove}(signer, payee)@ts with signer in a pool of 3 new keys, payee in a pool of 2 (so accept/cancel/remove carry keys that match or do not match the record), plus remove (matching / mismatching payee) and re-pledge of one genesis node; ts in {t, t+1, t+12h, t+12h+1} not below the newest record (equal timestamps across signers are forced) and strictly above the signer's own newest record. Every event is a real node transaction (output type + Extra = signer||payee) finalized by LockInputs(fork) + WriteTransaction + WriteSnapshot without Validate, so valid and invalid operations reach writeNodePledge/Accept/Cancel/Remove through the real writeUTXO dispatch; it spends the output the operation names when that exists and is unspent (pledge output for accept/cancel, accept output for remove), otherwise a 13439 XIN wallet output from a custodian-signed deposit. Canonical state = the durable history (ts, signer, payee, state), identified with the shortest history of accepted events; successors are computed on instances that replayed that history; a rejected event must leave the NODESTATEQUEUE dump unchanged (checked), is a self-loop, and the same instance then tries the next event, a new instance is built after every accepted event; every violation is re-run 5x on a fresh instance with history+event only. Reference model = list of records + the statement's rules; oracle evaluated after every event")
 	c.Assume(
 		"storage layer only: common.Validate (validateNode*) and the kernel's validateNode*Snapshot are not called; the full layer of DESIGN.md C27 (same events through validation, timestamps going backwards or leaving the hour windows) is out of scope of this check",
 		"timestamps never decrease and strictly increase per signer (the record key is (timestamp, signer); the kernel layer never produces an overwrite); with non-decreasing timestamps the +12h read thresholds of the write functions never exclude a record",
@@ -749,7 +790,8 @@ func TestMC_C27(t *testing.T) {
 	c.Set("accepted_with_equal_timestamp_of_other_signer", n.equalTsAccepted.Load())
 	c.Set("rejected_for_payee_mismatch_only", n.mismatchReject.Load())
 	c.Set("events_spending_the_named_output", n.naturalInput.Load())
-	c.Set("events_spending_a_fresh_wallet_output", n.fundedInput.Load())
+	c.Set("events_spending_a_wallet_output", n.fundedInput.Load())
+	c.Set("wallet_deposits_finalized", n.deposits.Load())
 	if c.Violations() == 0 && d == depth {
 		c.Require(states > 100 && trans > 1000, "vacuous C27 exploration: %d states %d transitions", states, trans)
 		for op, name := range c27OpNames {
